@@ -222,6 +222,29 @@ def check_float_split(rep, v):
             viol(rep, 'split of %r gave %r, %r' % (mk(v), a1, a2), case)
 
 
+def check_quantity_dividers(rep):
+    """zero / set / set_value on a variable with units, emitted: the daughters
+    hold quantities in the variable's units (zero of them for `zero`) and the run
+    goes on - the next rows are emitted and the variable can be updated."""
+    for divider, want in (('zero', (0 * units.g, 0 * units.g)),
+                          ('set', (2.5 * units.g, 2.5 * units.g))):
+        rep.evaluations += 1
+        vars_ = {'a': {'_default': 0.5 * units.g, '_divider': divider, '_emit': True}}
+        case = {'divider': divider, 'value': '2.5 g', 'carrier': 'quantity, emitted'}
+        try:
+            eng, snaps = run_division(vars_, {'a': 2.5 * units.g}, ticks_after=2)
+        except Exception as e:
+            viol(rep, 'division (or the run after it) raised %r' % (e,), case)
+            continue
+        s = strip(snaps[0])['agents']
+        got = (s['d1']['st']['a'], s['d2']['st']['a'])
+        ok = all(hasattr(g, 'units') and str(g.units) == 'gram' and g == w
+                 for g, w in zip(got, want))
+        if not ok:
+            viol(rep, 'divider %s on 2.5 g gave %r, expected %r' % (divider, got, want), case)
+    rep.nontrivial.add('quantity-dividers')
+
+
 def check_big_split(rep, row):
     """LawSplitShift instantiated beyond 2^53: the mother holds v + 2m with
     m = 2^59 (a count no float can hold exactly); each daughter must hold m more
@@ -429,6 +452,7 @@ def run(rep, tier, scratch):
         if row['d'] == 'split':
             rep.guard(check_big_split, rep, row, what='big split', detail=row)
     rep.guard(check_infinite, rep, what='infinite split')
+    rep.guard(check_quantity_dividers, rep, what='dividers on quantities')
     for row in t['dict']:
         rep.guard(check_dict, rep, row, what='split_dict', detail=row)
     for row in t['custom']:
